@@ -415,7 +415,8 @@ def content_length_u32(ctx, rule):
     facts = ctx.facts
     fn = facts.fn(conn.PHL)
     n = 0
-    for bb, t in fn.calls_to("parse"):
+    from .util import calls_with_helpers
+    for fn_, bb, t in calls_with_helpers(facts, fn, "parse"):
         targs = [x["s"] for x in t["callee"].get("targs", [])]
         n += 1
         ctx.ob(rule, "parse-u32", targs == ["u32"], "Content-Length parsed with str::parse::<%s>" % ",".join(targs), fn.loc(bb))
